@@ -36,8 +36,12 @@ Ent0(c, j) == EntOf(c.fam[j], Len(c.par))
 
 \* DeleteRange(lo,hi) at node d: every key of the interval that a read at d finds gets a
 \* tombstone at d (keys that are not found need none; observably the same).
+\* A key of the interval that is in merge conflict at d makes the whole DeleteRange fail (its
+\* scan reports the conflict before anything is flushed): nothing is deleted then.
+DRFails(c) == c.d # 0 /\ \E j \in 1..NK : InInterval(j, c.lo, c.hi) /\ ReadNode(c.par, Ent0(c, j), c.d) = -1
+
 Ent1(c, j) ==
-    IF c.d # 0 /\ InInterval(j, c.lo, c.hi) /\ ReadNode(c.par, Ent0(c, j), c.d) # 0
+    IF c.d # 0 /\ ~DRFails(c) /\ InInterval(j, c.lo, c.hi) /\ ReadNode(c.par, Ent0(c, j), c.d) # 0
     THEN [k \in (DOMAIN Ent0(c, j)) \cup {c.d} |-> IF k = c.d THEN Tomb ELSE Ent0(c, j)[k]]
     ELSE Ent0(c, j)
 
@@ -55,7 +59,7 @@ Desc(par, d) == {v \in 1..Len(par) : d \in Anc(par, v)}
 
 \* Property C05, second sentence, on one case.
 DeleteRangeClaims(c) ==
-    c.d # 0 =>
+    (c.d # 0 /\ ~DRFails(c)) =>
       /\ \A j \in 1..NK : InInterval(j, c.lo, c.hi) /\ Reads0(c)[c.d][j] # -1 => Reads1(c)[c.d][j] = 0
       /\ \A v \in 1..Len(c.par) : v \notin Desc(c.par, c.d) => Reads1(c)[v] = Reads0(c)[v]
       /\ \A j \in 1..NK : ~InInterval(j, c.lo, c.hi) => \A v \in 1..Len(c.par) : Reads1(c)[v][j] = Reads0(c)[v][j]
